@@ -55,6 +55,10 @@ func runC11(c *core.Ctx) {
 			var j typedJob
 			json.Unmarshal([]byte(c.Child), &j)
 			typedChild(c, j)
+		case "allocprobe":
+			var j allocJob
+			json.Unmarshal([]byte(c.Child), &j)
+			allocChild(c, j)
 		case "typedreplay":
 			var j typedJob
 			json.Unmarshal([]byte(c.Child), &j)
@@ -106,7 +110,12 @@ func runC11(c *core.Ctx) {
 		{cfg: "CodecBytesC" + suffix + ".cfg", kind: "bytes"},
 		{cfg: "CodecValues" + suffix + ".cfg", kind: "values"},
 		{cfg: "CodecRegistry.cfg", kind: "registry"},
-		{cfg: "CodecRegistryAsCoded.cfg", kind: "ascoded"},
+	}
+	if c.Thorough() {
+		// untyped inputs of up to 6 bytes over the quick alphabet
+		runs = append(runs, &run{cfg: "CodecBytesA6_thorough.cfg", kind: "bytes"})
+		// the as-coded variant of the registry model: TLC itself finds the panic (documentary; the verdict comes from the replay)
+		runs = append(runs, &run{cfg: "CodecRegistryAsCoded.cfg", kind: "ascoded"})
 	}
 	// level (ii)/(iii) jobs run while TLC works
 	typedDone := make(chan struct{})
@@ -186,6 +195,9 @@ func runC11(c *core.Ctx) {
 	}
 	o.Exhaustive = true
 
+	// allocation of the model inputs with long-form headers / huge claims, measured in quiet child processes
+	runAllocProbes(c, gs)
+
 	// registry: every registration order that the tour needs to cover all edges, each in a fresh process
 	regPaths, regSteps := replayRegistry(c, regLines)
 
@@ -210,6 +222,7 @@ func runC11(c *core.Ctx) {
 		"lenient_accepts":                gs.lenient,
 		"interface_body_errors_in_model": gs.ibSeen,
 		"of_which_accepted_by_the_code":  gs.ibDropped,
+		"examples_accepted_by_the_code":  gs.ibExamples,
 		"error_class_differences":        gs.classDrift,
 		"alloc_probes":                   gs.allocProbed,
 		"max_alloc_bytes":                gs.maxAlloc,
@@ -618,6 +631,7 @@ func replayFile(c *core.Ctx) {
 		}
 		gs := newGrammarStats()
 		checkDecode(c, gs, tg, ints, r, st, "replay of "+str("origin"), true)
+		runAllocProbes(c, gs)
 		c.Out().Traces, c.Out().Evaluations = 1, gs.calls
 	case str("item") != "":
 		if strings.Contains(str("input_hex"), "...(") {
